@@ -610,4 +610,16 @@ def newLogConfig (exp : Exp) (parse : Parse) (e : OtlpEnv) (opts : List UOpt) : 
 def newConfig (exp : Exp) (parse : Parse) (e : OtlpEnv) (opts : List UOpt) : Cfg :=
   if exp.isLog then newLogConfig exp parse e opts else newTMConfig exp parse e opts
 
+/-- one exporter construction: its kind, the environment at ITS construction time, its options -/
+structure Construction where
+  exp : Exp
+  env : OtlpEnv
+  opts : List UOpt
+
+/-- a process that constructs several exporters one after the other: in the model every construction is a pure function
+of its own sources (the code has no modelled shared state; package-level state — e.g. a shared dial-option slice — is
+outside the model and is what the two-exporter end-to-end scenarios observe) -/
+def constructAll (parse : Parse) (cs : List Construction) : List Cfg :=
+  cs.map (fun c => newConfig c.exp parse c.env c.opts)
+
 end Otel.C20
